@@ -160,7 +160,7 @@ def build_harness(name, link_lib=True, extra=(), header_only_deps=()):
 
 def tree_id():
     rc, head, _ = sh(["git", "-C", REPO, "rev-parse", "HEAD"])
-    rc, diff, _ = sh("git -C %s diff HEAD -- . ':!_build' | sha1sum" % REPO)
+    rc, diff, _ = sh("git -C %s diff HEAD -- . ':(exclude)_build' 2>/dev/null | sha1sum" % REPO)
     return {"head": head.strip(), "diff_sha1": diff.split()[0] if diff else ""}
 
 
